@@ -11,7 +11,9 @@ def run(prog, rep, tier):
                   "static initialised from a parameter (same text compiled twice); S4: bindings::find consults the enclosing scope only when the "
                   "own scope misses, and a block's up-reference table enters the names of the enclosing scope before inherited up-references "
                   "under keep-first insertion (inner binders shadow outer/builtin names for nested blocks); S6: build_exec interpreted on a READ node "
-                  "and on a BLOCK node with one free name, under every combination of scope-chain hit / up-reference hit: the scope chain wins.")
+                  "and on a BLOCK node with one free name, under every combination of scope-chain hit / up-reference hit: the scope chain wins; S7: build_exec/build_pred interpreted on a node of "
+                  "every tree kind: each nested build_exec/build_pred receives the very up-reference table of the enclosing block (the body of a BLOCK: "
+                  "the new table made from the enclosing bindings and table), never a copy - ids are allocated in it lazily and captured from it.")
     rep.not_decided = ("agreement between up-value id allocation order and the pop order in op_lex_closure for all nesting shapes; that each read "
                        "yields the value bound for the very input (run-time relation).")
     r = r_scope.s1(prog)
@@ -25,6 +27,7 @@ def run(prog, rep, tier):
     apply(rep, "S5", "inherited up-references start unused in the nested block", r_scope.s5(prog), 1)
     apply(rep, "S4", "inner binders shadow outer ones (lookup and up-reference table order)", r_scope.s4(prog), 2)
     apply(rep, "S6", "a scope-chain binding wins over an up-reference of the enclosing block", r_build.s6(prog), 2)
+    apply(rep, "S7", "every nested build is handed the enclosing block's own up-reference table, never a copy", r_build.s7(prog), 12)
     q = r_pure.q1(prog)
     apply(rep, "Q1", "no parameter-dependent function-local static", ([i for i in q[0] if i[0].startswith("Q1iii")],
                                                                     [f for f in q[1] if f["key"].startswith("Q1iii")]), 1)
